@@ -321,12 +321,29 @@ func crashClass(stderr string) string {
 		kind = "fatal error"
 	}
 	frame := "?"
-	for _, m := range reFrame.FindAllStringSubmatch(stderr, -1) {
-		if strings.HasPrefix(m[1], "verifapi.") {
-			continue
+	if kind == "stack overflow" {
+		// the frame on top at the moment of exhaustion is accidental; name the recursion by the repository
+		// function that occurs most often in the trace (ties: alphabetical)
+		count := map[string]int{}
+		for _, m := range reFrame.FindAllStringSubmatch(stderr, -1) {
+			if !strings.HasPrefix(m[1], "verifapi.") {
+				count[m[1]]++
+			}
 		}
-		frame = m[1]
-		break
+		best := 0
+		for f, n := range count {
+			if n > best || (n == best && f < frame) {
+				frame, best = f, n
+			}
+		}
+	} else {
+		for _, m := range reFrame.FindAllStringSubmatch(stderr, -1) {
+			if strings.HasPrefix(m[1], "verifapi.") {
+				continue
+			}
+			frame = m[1]
+			break
+		}
 	}
 	if kind == "died" {
 		t := strings.TrimSpace(stderr)
